@@ -293,6 +293,46 @@ def library_spellings(xs, ys):
             grid.tobytes(order='C') == grid.tobytes())
 
 
+def annotated_locals(items):
+    total: int = 0
+    seen: list
+    seen = []
+    for item in items:
+        size: int = len(item)
+        total += size
+        seen.append(size)
+    label: str
+    return total, seen
+
+
+def metadata_temps(array, names):
+    count = len(names)
+    shape = array.shape
+    merged = int(numpy.prod(shape[-count:])) if count else 1
+    flat = array.reshape(shape[:len(shape) - count] + (merged,))
+    return flat.shape, count, shape
+
+
+def metadata_temps_kept(names):
+    """The list grows after it was measured: the old length is kept under its name."""
+    before = len(names)
+    names.append('x')
+    return before, len(names)
+
+
+def method_alias(holder, items):
+    lookup = holder.attrs.get
+    found = [lookup(item) for item in items]
+    upper = str.upper
+    return found, [upper(item) for item in items]
+
+
+def method_alias_kept(holder, items):
+    """The alias is handed on as a value: it stays."""
+    lookup = holder.attrs.get
+    return list(map(lookup, items))
+
+
 def library_keywords_kept(xs):
     """A keyword that is NOT the documented default stays: Fortran order is another array."""
     grid = numpy.asarray(xs).reshape((2, 2), order='F')
@@ -1362,6 +1402,11 @@ CASES = {
     'setdefault_statement': [({'a': 1, 'b': 2}, {'a': 0}), ({}, {}), ({'a': None}, {})],
     'get_test': [({'k': 1}, 'k'), ({}, 'k'), ({'k': 0}, 'k')],
     'library_spellings': [([1, 2, 3], [4.5, 5, 6]), ([7], [8])],
+    'annotated_locals': [(['ab', '', 'cde'],), ([],)],
+    'metadata_temps': [(numpy.arange(24).reshape(2, 3, 4), ['a', 'b']), (numpy.arange(6).reshape(2, 3), [])],
+    'metadata_temps_kept': [(['a'],), ([],)],
+    'method_alias': [(HOLDER_A, ['bounds', 'units']), (HOLDER_C, ['bounds', 'start_index'])],
+    'method_alias_kept': [(HOLDER_C, ['bounds', 'start_index'])],
     'library_keywords_kept': [([1, 2, 3, 4],)],
     'get_test_encoding': [({'k': 1}, 'k'), ({}, 'k'), ({'k': None}, 'k'), ({'k': 0}, 'k')],
     'conditional_element': [(True,), (False,)],
